@@ -92,3 +92,54 @@ func Sum(m []byte) [32]byte {
 
 // T returns the round constant T_j <<< (j mod 32), the quantity a precomputed table must hold.
 func T(j int) uint32 { return rotl(tj(j), uint(j%32)) }
+
+// Stream is the incremental form of Sum for messages too long to hold twice in memory: Write absorbs bytes, Sum pads
+// a copy of the state (GB/T 32905 section 5.2, 64-bit bit length) and leaves the stream unchanged.
+type Stream struct {
+	v   [8]uint32
+	n   uint64 // bytes absorbed
+	buf []byte // < 64 pending bytes
+}
+
+func NewStream() *Stream { return &Stream{v: iv} }
+
+func (s *Stream) Write(p []byte) {
+	s.n += uint64(len(p))
+	if len(s.buf) > 0 {
+		k := 64 - len(s.buf)
+		if k > len(p) {
+			k = len(p)
+		}
+		s.buf = append(s.buf, p[:k]...)
+		p = p[k:]
+		if len(s.buf) == 64 {
+			s.v = CF(s.v, s.buf)
+			s.buf = s.buf[:0]
+		}
+	}
+	for len(p) >= 64 {
+		s.v = CF(s.v, p[:64])
+		p = p[64:]
+	}
+	s.buf = append(s.buf, p...)
+}
+
+func (s *Stream) Sum() [32]byte {
+	tail := append([]byte{}, s.buf...)
+	tail = append(tail, 0x80)
+	for len(tail)%64 != 56 {
+		tail = append(tail, 0)
+	}
+	var lb [8]byte
+	binary.BigEndian.PutUint64(lb[:], s.n*8)
+	tail = append(tail, lb[:]...)
+	v := s.v
+	for i := 0; i < len(tail); i += 64 {
+		v = CF(v, tail[i:i+64])
+	}
+	var out [32]byte
+	for i := 0; i < 8; i++ {
+		binary.BigEndian.PutUint32(out[4*i:], v[i])
+	}
+	return out
+}
